@@ -119,7 +119,7 @@ def run(pid, tier, replay=None):
         # (iv) built-in spellings: two expressions share an id exactly when their identity normal forms agree
         from checks import texprcommon as T
         cases = T.corpus(c, thorough, thorough)
-        tr2 = T.observe(c, cases, 70, 0, limit=None)
+        tr2 = T.observe(c, cases, 70, 1, limit=None)      # with one value per type: every valued type is ALSO registered alone, in a fresh registry
         T.validate(c, "C05", tr2)
     if pid == "C02":
         # the decisive leg on REAL types: universe extraction through MetaType::type_info() vs the registry
